@@ -1391,8 +1391,12 @@ func Run(outDir string, seed int64, tier string) error {
 			}
 		}
 	}
+	// the public randomness stream through the real PublicRandStream adapters (real code and monitor only)
+	if err := runPublicStreams(rep); err != nil {
+		return err
+	}
 	rep.DistinctNontrivial = len(distinct)
-	rep.Rule = "real SyncChain over the daemon's store stack callback(append(scheme(back-end))) with a chained and an unchained scheme (beacons arrive with the previous signature set) and over the bare callback store, on memdb, trimmed bolt and untrimmed bolt; every delivered beacon (round, signature, previous signature) is compared with what the store returns for that round; the callbacks left in the real callback store (sync_total_callbacks gauge) are compared with the SyncChain calls still running; Send and AddCallback gated so that the harness places every Put relative to each scan step and registration; the fake streams carry real gRPC peer contexts (host and source port; several connections from one host), so the callback id is the one internal/net derives; witness scripts (two clients on one host, reconnect from a new port while the old connection is stalled, Puts whose context is cancelled between the commit and the dispatch or before the call while several streams are live, Put between scan end and AddCallback, Put during the scan, no Put in the window, same-id reconnect, start at 0 / head / beyond head; a Put paused between its store write and its dispatch while AddCallback runs - monitor only; a chained store with a deleted middle round walked from below the hole - monitor only; a second stream from the same address while the first one's Send never returns) and random scripts with 1-3 concurrent streams, reconnects, refused Sends and Puts with cancelled contexts; distinct = distinct (back-end, event); an evaluation = one event"
+	rep.Rule = "real SyncChain over the daemon's store stack callback(append(scheme(back-end))) with a chained and an unchained scheme (beacons arrive with the previous signature set) and over the bare callback store, on memdb, trimmed bolt and untrimmed bolt; every delivered beacon (round, signature, previous signature) is compared with what the store returns for that round; the callbacks left in the real callback store (sync_total_callbacks gauge) are compared with the SyncChain calls still running; Send and AddCallback gated so that the harness places every Put relative to each scan step and registration; the fake streams carry real gRPC peer contexts (host and source port; several connections from one host), so the callback id is the one internal/net derives; witness scripts (two clients on one host, reconnect from a new port while the old connection is stalled, Puts whose context is cancelled between the commit and the dispatch or before the call while several streams are live, Put between scan end and AddCallback, Put during the scan, no Put in the window, same-id reconnect, start at 0 / head / beyond head; a Put paused between its store write and its dispatch while AddCallback runs - monitor only; a chained store with a deleted middle round walked from below the hole - monitor only; the real BeaconProcess.PublicRandStream on a real Handler with a transport that keeps the message pointers and reads them after the stream ended - monitor only; a second stream from the same address while the first one's Send never returns) and random scripts with 1-3 concurrent streams, reconnects, refused Sends and Puts with cancelled contexts; distinct = distinct (back-end, event); an evaluation = one event"
 	if err := rep.Shard(outDir, "cases_stream", []string{"From DV Require Import Model.Stream Corr.StreamCorr."}, "scase", "mismatches", cases, descr, 60); err != nil {
 		return err
 	}
